@@ -135,6 +135,7 @@ class Body:
         sp = raw.get("span", [0, 0])
         self.file = self._str(sp[0]) if self.strings else "?"
         self.line = sp[1]
+        self.span_macros = tuple(sp[2]) if len(sp) > 2 else ()  # macro back-trace of the body's own span (a closure a macro expands to)
         self.end_line = raw.get("end_line", sp[1])
         self.argc = raw.get("argc", 0)
         self.coroutine = raw.get("coroutine")
@@ -1095,6 +1096,9 @@ class Program:
                     c = blk.term.d.get("r") or blk.term.d.get("f")
                     if c in self.new_fns:
                         still.add(c)
+                    for o in list(blk.term.d.get("args") or []) + [blk.term.d.get("fp")]:
+                        if isinstance(o, Operand) and o.kind == "const" and o.const.get("fn") in self.new_fns:
+                            still.add(o.const["fn"])  # passed by name (`map(helper)`, `create_next_task(build)`): stays a body
                 for st in blk.stmts:
                     if st.kind == "assign":
                         for o in [st.rv.get("a"), st.rv.get("b")] + list(st.rv.get("ops") or []):
